@@ -1,18 +1,41 @@
 #!/bin/bash
-# usage: scripts/check.sh <cNN> <quick|thorough> [extra args]
+# usage: scripts/check.sh <cNN> <quick|thorough|replay <file>> [extra args]
 # Builds the harness against /repo's current working tree (hooks on: -tags verif, overlay
 # regenerated from the current files) and runs it. Exit: 0 held, 1 violation, 2 harness error.
+#
+# VERIF_PATCHES="a.patch b.patch": build as if these diffs were applied to /repo (through the
+# overlay; /repo is untouched). Used for mutants and for candidate fixes. With VERIF_PATCHES set the
+# binary, evidence and replays go to a private directory (VERIF_ROOT copy) so that a mutant run never
+# overwrites the real evidence.
 set -u
 cd /verif
 . scripts/env.sh
 id="$1"; tier="${2:-quick}"; shift; shift || true
 export VERIF_TIER="$tier"
+[ "$tier" = replay ] && export VERIF_TIER=quick
 mkdir -p build evidence replays
-ovl=()
-if [ -f "checks/$id/overlay.spec" ]; then
-  go build -o build/overlaygen ./cmd/overlaygen || { echo "HARNESS-ERROR: overlaygen build failed"; exit 2; }
-  build/overlaygen "checks/$id/overlay.spec" "build/overlay-$id" > "build/overlay-$id.json" || { echo "HARNESS-ERROR: overlay generation failed"; exit 2; }
-  ovl=(-overlay "build/overlay-$id.json")
+tag="$id"
+base=()
+if [ -n "${VERIF_PATCHES:-}" ]; then
+  tag="$id-p$$"
+  scripts/patch_overlay.sh "build/patched-$tag" $VERIF_PATCHES > "build/base-$tag.json" || { echo "HARNESS-ERROR: patch overlay failed"; exit 2; }
+  base=(-base "build/base-$tag.json")
+  export VERIF_ROOT="/verif/build/root-$tag"
+  mkdir -p "$VERIF_ROOT"
+  cp known_findings.json "$VERIF_ROOT/" 2>/dev/null
+  mkdir -p "$VERIF_ROOT/checks/$id"; cp "checks/$id/findings.json" "$VERIF_ROOT/checks/$id/" 2>/dev/null
+  trap 'rm -rf "build/patched-$tag" "build/base-$tag.json" "build/overlay-$tag" "build/overlay-$tag.json" "build/$tag" "$VERIF_ROOT"' EXIT
 fi
-go build -tags verif "${ovl[@]}" -o "build/$id" "./checks/$id" || { echo "HARNESS-ERROR: build of checks/$id failed"; exit 2; }
-exec "build/$id" "$tier" "$@"
+ovl=()
+spec="-"
+[ -f "checks/$id/overlay.spec" ] && spec="checks/$id/overlay.spec"
+if [ "$spec" != "-" ] || [ ${#base[@]} -gt 0 ]; then
+  { go build -o "build/overlaygen.$$" ./cmd/overlaygen && mv -f "build/overlaygen.$$" build/overlaygen; } || { echo "HARNESS-ERROR: overlaygen build failed"; exit 2; }
+  build/overlaygen "${base[@]}" "$spec" "build/overlay-$tag" > "build/overlay-$tag.json" || { echo "HARNESS-ERROR: overlay generation failed"; exit 2; }
+  ovl=(-overlay "build/overlay-$tag.json")
+fi
+go build -tags verif "${ovl[@]}" -o "build/$tag" "./checks/$id" || { echo "HARNESS-ERROR: build of checks/$id failed"; exit 2; }
+[ -n "${VERIF_BUILD_ONLY:-}" ] && exit 0
+"build/$tag" "$tier" "$@"
+rc=$?
+exit $rc
